@@ -297,39 +297,41 @@ func consequenceKey(key string) bool {
 func poisonedIDs(m *mon) map[string]bool {
 	out := map[string]bool{}
 	for _, o := range m.ops {
-		if o.Kind != "TryRemove" || o.Call == 0 {
+		if o.Kind != "TryRemove" || o.Call == 0 || out[o.ID] {
 			continue
 		}
 		ret := o.Ret
 		if ret == 0 {
 			ret = inf
 		}
+		// a load of this id is in flight, from the cache's point of view, from
+		// the moment the loading Get inserted its placeholder until it stored
+		// the value — bracketed by that Get's own call and return events (the
+		// load-start event alone may not have been logged yet when a panic is
+		// reported)
+		overlap := false
+		for _, g := range m.ops {
+			if g.Kind == "Get" && g.ID == o.ID && g.Call != 0 && g.Call < ret && (g.Ret == 0 || g.Ret > o.Call) && (len(g.Loaded) > 0 || g.Ret == 0) {
+				overlap = true
+				break
+			}
+		}
+		if !overlap {
+			continue
+		}
+		touched := o.Ret == 0 || o.OK || (o.Err != "" && o.Err != "ErrNotExists" && o.Err != "ErrClosed")
 		for _, in := range m.insts {
-			if in.Kind != "load" || in.ID != o.ID {
+			if in.ID != o.ID {
 				continue
 			}
-			// the load is in flight, from the cache's point of view, from the
-			// moment the loading Get inserted its placeholder until it stored
-			// the value — bracketed by that Get's own call and return events
-			ls, le := in.LoadStart, in.LoadEnd
-			if in.LoaderOp >= 0 && in.LoaderOp < len(m.ops) {
-				ls, le = m.ops[in.LoaderOp].Call, m.ops[in.LoaderOp].Ret
-			}
-			if le == 0 {
-				le = inf
-			}
-			if !(ls < ret && le > o.Call) {
-				continue
-			}
-			touched := o.Ret == 0 || o.OK || (o.Err != "" && o.Err != "ErrNotExists" && o.Err != "ErrClosed")
 			for _, t := range in.Tries {
 				if t.Op == o.Idx {
 					touched = true
 				}
 			}
-			if touched {
-				out[o.ID] = true
-			}
+		}
+		if touched {
+			out[o.ID] = true
 		}
 	}
 	return out
